@@ -1062,6 +1062,14 @@ class Interp:
 
     def py_eq(self, a, b):
         """True / False / None(unknown)"""
+        if getattr(self, "user_eq", False) and a is not b:
+            # opt-in (rules about containers of repo objects): `==`, `in`, list.remove / index go through the class's own __eq__
+            for x, y in ((a, b), (b, a)):
+                if isinstance(x, Obj) and x.cls is not None:
+                    m = x.cls.find_method("__eq__")
+                    if m is not None:
+                        r = self.call_func(m, [y], {}, None, self_obj=x)
+                        return r if isinstance(r, bool) else None
         ta, tb = type(a).__name__, type(b).__name__
         if ta == "Tok" or tb == "Tok":
             if ta == tb:
